@@ -17,7 +17,8 @@ RULE = ('synthetic importable modules (registered in sys.modules, unique '
         '(none / implementer / implementer_only / classImplements(First|Only) '
         'after creation / inherited from 0-2 bases), implementer on a '
         'function, class-provides via provider and alsoProvides, instances '
-        'with directlyProvides / alsoProvides; every pickle protocol 0-5; '
+        'with directlyProvides / alsoProvides, in a third of the cases '
+        'classes re-declared afterwards; every pickle protocol 0-5; '
         'pickled: each interface, implementedBy(cls), cls.__provides__, '
         'ob.__provides__, ob, the empty declaration; oracle = identity / '
         'same interface sequence / equality+hash, no marker string and only '
@@ -64,8 +65,15 @@ def case_strategy(draw):
         insts.append({'cls': draw(st.integers(0, len(classes) - 1)),
                       'direct': draw(st.one_of(st.none(), ifl)),
                       'also': draw(st.one_of(st.none(), ifl))})
+    # classes re-declared after the instance declarations were made
+    narrow = []
+    if draw(st.integers(0, 2)) == 0:
+        for _ in range(draw(st.integers(1, 2))):
+            narrow.append({'cls': draw(st.integers(0, len(classes) - 1)),
+                           'ifaces': draw(ifl),
+                           'only': draw(st.integers(0, 3)) > 0})
     return {'ibases': ibases, 'classes': classes, 'funcs': funcs,
-            'insts': insts, 'dotted': draw(st.booleans())}
+            'insts': insts, 'dotted': draw(st.booleans()), 'narrow': narrow}
 
 
 def strategy(cfg):
@@ -170,19 +178,38 @@ def _run(case, out, mod, modname, marker, z):
         z['implementer'](*ii(spec['ifaces']))(fn)
         funcs.append(fn)
         nontrivial = True
-    # instance declarations are made after the classes are complete: the
-    # pickle of a declaration carries only (class, interfaces), so two live
-    # declarations with equal arguments and different content (possible
-    # only if the class is re-declared in between) are outside this
-    # property's domain
+    # The pickle of an instance declaration carries (class, interfaces as
+    # declared).  A class re-declared after the instance declarations were
+    # made (case['narrow']) changes nothing for a declaration none of whose
+    # interfaces was redundant when it was made: its round trip must still
+    # be exact (seed C13e).  A declaration from which a redundant interface
+    # was dropped ("elided") gets it back on unpickling once the class has
+    # stopped implementing it: for those the copy may provide the elided
+    # interfaces in addition, nothing else.
     insts = []
+    elided = []
     for spec in case['insts']:
-        ob = classes[spec['cls']]()
+        cls = classes[spec['cls']]
+        ob = cls()
+        el = set()
         if spec['direct'] is not None:
+            el = {i for i in ii(spec['direct']) if i.implementedBy(cls)}
             z['directlyProvides'](ob, *ii(spec['direct']))
         if spec['also'] is not None:
+            el |= {i for i in ii(spec['also']) if i.implementedBy(cls)}
             z['alsoProvides'](ob, *ii(spec['also']))
         insts.append(ob)
+        elided.append(el)
+    redeclared = set()
+    for spec in case.get('narrow') or []:
+        cls = classes[spec['cls']]
+        if spec['only']:
+            z['classImplementsOnly'](cls, *ii(spec['ifaces']))
+        else:
+            z['classImplements'](cls, *ii(spec['ifaces']))
+        redeclared.update(k for k, ob in enumerate(insts)
+                          if isinstance(ob, cls))
+        out.tag('class_redeclared_after_instances')
     if nontrivial:
         out.nontrivial = True
 
@@ -294,14 +321,17 @@ def _run(case, out, mod, modname, marker, z):
                 copy, ok = rt(p, 'instance %d __provides__' % k)
                 if not ok:
                     return
-                if copy is not p:
+                loose = k in redeclared and elided[k]
+                if loose:
+                    pass
+                elif copy is not p:
                     out.fail('provides-identity',
                              'instance %d declaration protocol %d: unpickled '
                              'object is not the live shared declaration '
                              '(%r -> %r)' % (k, proto, iface_names(p),
                                              iface_names(copy)))
                     return
-                if copy != p or hash(copy) != hash(p):
+                if not loose and (copy != p or hash(copy) != hash(p)):
                     out.fail('provides-equality', 'instance %d' % k)
                     return
             out.checks += 1
@@ -311,7 +341,21 @@ def _run(case, out, mod, modname, marker, z):
             if type(ocopy) is not type(ob):
                 out.fail('instance-type', repr(ocopy))
                 return
-            if flat_names(providedBy(ocopy)) != flat_names(providedBy(ob)) \
+            if k in redeclared and elided[k]:
+                have = set(providedBy(ob).flattened())
+                got = set(providedBy(ocopy).flattened())
+                may = set(have)
+                for i in elided[k]:
+                    may.update(i.__iro__)
+                if not (have <= got <= may):
+                    out.fail('instance-interfaces-band',
+                             'instance %d protocol %d: copy provides %r, '
+                             'original %r, elided when declared %r' % (
+                                 k, proto, flat_names(providedBy(ocopy)),
+                                 flat_names(providedBy(ob)),
+                                 sorted(i.__name__ for i in elided[k])))
+                    return
+            elif flat_names(providedBy(ocopy)) != flat_names(providedBy(ob)) \
                     or iface_names(providedBy(ocopy)) != iface_names(
                         providedBy(ob)):
                 out.fail('instance-interfaces',
@@ -320,7 +364,8 @@ def _run(case, out, mod, modname, marker, z):
                                           flat_names(providedBy(ocopy)),
                                           flat_names(providedBy(ob))))
                 return
-            if p is not None and ocopy.__dict__.get('__provides__') is not p:
+            if p is not None and not (k in redeclared and elided[k]) and \
+                    ocopy.__dict__.get('__provides__') is not p:
                 out.fail('instance-shared-declaration', 'instance %d: copy '
                          'does not share the live declaration' % k)
                 return
